@@ -198,6 +198,24 @@ let run (toks : string list) : string =
                (match whole_file res with
                 | Ok a -> finish (hitem @ [show_aig binary a]) "ok" s
                 | Err e -> finish hitem (show_perr e) s)
+             else if has 'x' then
+               (* Parser::parse, then the writer(s) on the value *)
+               (match whole_file res with
+                | Ok a ->
+                    let w = (if binary then
+                      (let show r = (match r with
+                        | WrOk b -> hex_of_bytes b
+                        | WrOverflow -> "OVF"
+                        | WrAssert -> "PANIC(!assert)") in
+                       let swapped = { a with g_ands = List.map (fun ((o, x), y) -> ((o, y), x)) a.g_ands } in
+                       match write_aig_checked a with
+                       | WrOverflow -> ["W:OVF"]
+                       | r -> ["W:" ^ show r; "WS:" ^ show (write_aig_checked swapped)]) @
+                      [
+                       (if (let d = str_of_n a.g_header.a_inputs in String.length d <= 4 && int_of_string d <= 4096) then "WA:" ^ hex_of_bytes (write_aag_ordered a) else "WA:-")]
+                    else ["W:" ^ hex_of_bytes (write_aag a)]) in
+                    finish (hitem @ [show_aig binary a] @ w) "ok" s
+                | Err e -> finish hitem (show_perr e) s)
              else finish (hitem @ List.map show_item items) (show_final fin) s)
        | _ -> failwith ("parser not modelled: " ^ parser))
   | _ -> failwith "pa: expected 8 fields"
